@@ -290,7 +290,8 @@ def run(ctx):
                "covers every interleaving of sender, adversary and receiver")
     ctx.assume("the entry timestamp field (ts) is outside the tag and is not applied by the receiver; altering it is not "
                "'applying an altered entry'")
-    ctx.assume("a connection drop by the receiver is observed through its warn/error log records and its total_errors counter")
+    ctx.assume("a connection drop by the receiver is what happens on the socket (it closes with delivered bytes unread -> reset, "
+               "or our write fails) or its own total_errors counter; log records only supply the reason text")
     ctx.assume("entries skipped after a wire-level frame drop are tolerated until the next checkpoint, which must reject the stream")
 
     for d, info in sorted(drift.items())[:8]:
@@ -306,11 +307,12 @@ def run(ctx):
         if not real:
             ctx.spec_drift("recording inconsistent with itself in run %d: %s" % (rid, codes))
             continue
-        healthy = not (sc.get("adv") or [])
+        healthy = not (info.get("adv_applied") or [])      # scripted steps that changed nothing do not count
         if healthy and info["inverted"]:
             sig = INVERSION_SIG
         else:
-            advk = "+".join(a["op"] + ("." + a["fld"] if a["op"] == "flip" else "") for a in sc.get("adv") or []) or "none"
+            advk = "none" if healthy else "+".join(a["op"] + ("." + a["fld"] if a["op"] == "flip" else "")
+                                                   for a in sc.get("adv") or [])
             sig = "%s [adversary=%s]" % ("+".join(real), advk)
         wit = {"verdict_codes": codes, "scenario": {k: v for k, v in sc.items() if k != "pred"},
                "observed": {k: (v[:60] if isinstance(v, list) else v) for k, v in info.items()},
